@@ -248,6 +248,14 @@ STMT_RULES = [
     ("final-local:for-update", "", ["final int c0 = 1;", "for (int q0 = 0; q0 < 1; c0 = 5) { q0 = q0 + 1; }"],
      ["int c0 = 1;", "for (int q0 = 0; q0 < 1; c0 = 5) { q0 = q0 + 1; }"], "all"),
     ("final-local:uninit", "", ["final int c0;"], ["final int c0 = 1;"], "all"),
+    # ... declared in a for header
+    ("final-local:for-init-update", "", ["for (final int c0 = 0; c0 < 1; c0 = c0 + 1) { }"],
+     ["for (int c0 = 0; c0 < 1; c0 = c0 + 1) { }"], "all"),
+    ("final-local:for-init-postfix", "", ["for (final int c0 = 0; c0 < 1; c0++) { }"], ["for (int c0 = 0; c0 < 1; c0++) { }"], "all"),
+    ("final-local:for-init-body", "", ["int g0 = 0;", "for (final int c0 = 0; g0 < 1; g0 = g0 + 1) { c0 = 2; }"],
+     ["int g0 = 0;", "for (int c0 = 0; g0 < 1; g0 = g0 + 1) { c0 = 2; }"], "all"),
+    ("final-local:for-init-long-body-postfix", "", ["int g0 = 0;", "for (final int c0 = 5; g0 < 1; g0 = g0 + 1) { c0--; }"],
+     ["int g0 = 0;", "for (int c0 = 5; g0 < 1; g0 = g0 + 1) { c0--; }"], "all"),
     ("final-local:inner-assign", "", ["final int c0 = 1;", "{", "c0 = 3;", "}"], ["int c0 = 1;", "{", "c0 = 3;", "}"], "all"),
     # final fields
     ("final-field:member-assign", ACCESS, ["Acc a0 = new Acc();", "a0.fin = 5;"], ["Acc a0 = new Acc();", "a0.pub = 5;"], "all"),
@@ -294,6 +302,13 @@ STMT_RULES = [
 
 # whole-program rules (position is part of the rule)
 PROGRAM_RULES = [
+    # generic instantiations with different arguments are different types, also as array elements
+    ('generic-array:init', 'class GA0 { public constructor() -> GA0 = default; } class GB0 { public constructor() -> GB0 = default; } class GBox<T> { public T v; public constructor(T x) -> GBox<T> { this.v = x; return this; } } function f0() -> void { GBox<GA0>[] xs = {new GBox<GA0>(new GA0())}; GBox<GB0>[] ys = xs; }', 'class GA0 { public constructor() -> GA0 = default; } class GB0 { public constructor() -> GB0 = default; } class GBox<T> { public T v; public constructor(T x) -> GBox<T> { this.v = x; return this; } } function f0() -> void { GBox<GA0>[] xs = {new GBox<GA0>(new GA0())}; GBox<GA0>[] ys = xs; }'),
+    ('generic-array:assign', 'class GA0 { public constructor() -> GA0 = default; } class GB0 { public constructor() -> GB0 = default; } class GBox<T> { public T v; public constructor(T x) -> GBox<T> { this.v = x; return this; } } function f0() -> void { GBox<GA0>[] xs = {new GBox<GA0>(new GA0())}; GBox<GB0>[] ys = {new GBox<GB0>(new GB0())}; ys = xs; }', 'class GA0 { public constructor() -> GA0 = default; } class GB0 { public constructor() -> GB0 = default; } class GBox<T> { public T v; public constructor(T x) -> GBox<T> { this.v = x; return this; } } function f0() -> void { GBox<GA0>[] xs = {new GBox<GA0>(new GA0())}; GBox<GA0>[] ys = {new GBox<GA0>(new GA0())}; ys = xs; }'),
+    ('generic-array:argument', 'class GA0 { public constructor() -> GA0 = default; } class GB0 { public constructor() -> GB0 = default; } class GBox<T> { public T v; public constructor(T x) -> GBox<T> { this.v = x; return this; } } function g0(GBox<GB0>[] p) -> int { return 1; } function f0() -> void { GBox<GA0>[] xs = {new GBox<GA0>(new GA0())}; int r = g0(xs); }', 'class GA0 { public constructor() -> GA0 = default; } class GB0 { public constructor() -> GB0 = default; } class GBox<T> { public T v; public constructor(T x) -> GBox<T> { this.v = x; return this; } } function g0(GBox<GA0>[] p) -> int { return 1; } function f0() -> void { GBox<GA0>[] xs = {new GBox<GA0>(new GA0())}; int r = g0(xs); }'),
+    ('generic-array:return', 'class GA0 { public constructor() -> GA0 = default; } class GB0 { public constructor() -> GB0 = default; } class GBox<T> { public T v; public constructor(T x) -> GBox<T> { this.v = x; return this; } } function f0() -> GBox<GB0>[] { GBox<GA0>[] xs = {new GBox<GA0>(new GA0())}; return xs; }', 'class GA0 { public constructor() -> GA0 = default; } class GB0 { public constructor() -> GB0 = default; } class GBox<T> { public T v; public constructor(T x) -> GBox<T> { this.v = x; return this; } } function f0() -> GBox<GA0>[] { GBox<GA0>[] xs = {new GBox<GA0>(new GA0())}; return xs; }'),
+    ('generic-array:prim-args', 'class GA0 { public constructor() -> GA0 = default; } class GB0 { public constructor() -> GB0 = default; } class GBox<T> { public T v; public constructor(T x) -> GBox<T> { this.v = x; return this; } } function f0() -> void { GBox<int>[] xs = {new GBox<int>(1)}; GBox<string>[] ys = xs; }', 'class GA0 { public constructor() -> GA0 = default; } class GB0 { public constructor() -> GB0 = default; } class GBox<T> { public T v; public constructor(T x) -> GBox<T> { this.v = x; return this; } } function f0() -> void { GBox<int>[] xs = {new GBox<int>(1)}; GBox<int>[] ys = xs; }'),
+    ('generic-value:other-arg', 'class GA0 { public constructor() -> GA0 = default; } class GB0 { public constructor() -> GB0 = default; } class GBox<T> { public T v; public constructor(T x) -> GBox<T> { this.v = x; return this; } } function f0() -> void { GBox<GA0> x = new GBox<GA0>(new GA0()); GBox<GB0> y = x; }', 'class GA0 { public constructor() -> GA0 = default; } class GB0 { public constructor() -> GB0 = default; } class GBox<T> { public T v; public constructor(T x) -> GBox<T> { this.v = x; return this; } } function f0() -> void { GBox<GA0> x = new GBox<GA0>(new GA0()); GBox<GA0> y = x; }'),
     ("return:value-in-void", "function f0() -> void { return 1; }", "function f0() -> void { return; }"),
     ("return:bare-in-int", "function f0() -> int { return; }", "function f0() -> int { return 1; }"),
     ("return:missing", "function f0() -> int { int a = 1; }", "function f0() -> int { int a = 1; return a; }"),
